@@ -104,6 +104,7 @@ def classify(fals):
         _, g, p, d = line.split('|')
         ol.append(f'{cid}n|bw_nodrop|{g}|{p}|{d}')
         ol.append(f'{cid}f|bw_fullparams|{g}|{p}|{d}')
+        ol.append(f'{cid}b|bw_both|{g}|{p}|{d}')
         ol.append(f'{cid}m|bw|{g}|{p}|{d}')
     o = core.run_bbm(ol)
     res = []
@@ -116,6 +117,8 @@ def classify(fals):
             res.append((cid, line, why, 'F2'))
         elif not nd.startswith('refuted'):
             res.append((cid, line, why, 'F1'))
+        elif not o.get(cid + 'b', '').startswith('refuted'):
+            res.append((cid, line, why, 'F1+F2'))        # refuted with either repair alone, not with both
         else:
             res.append((cid, line, why, None))
     return res
@@ -152,9 +155,14 @@ def run(rep, tier, seed):
     cl = classify(fals)
     fails = []
     counts = {'F1': 0, 'F2': 0}
+    both = 0
     for cid, line, why, k in cl:
         if k is None:
             fails.append((cid, line, why))
+        elif k == 'F1+F2':       # the refutation survives either repair alone and disappears with both: it rests on both call sites
+            both += 1
+            counts['F1'] += 1
+            counts['F2'] += 1
         else:
             counts[k] += 1
             if cid.startswith('k'):
@@ -164,6 +172,8 @@ def run(rep, tier, seed):
         if n:
             kf = [f for f in core.known_findings()['open'] if f['id'] == k][0]
             rep.known_finding(f'{k} class ({kf["site"]}): {n} falsified refutations in this run, all attributed by the model counterfactual')
+    if both:
+        rep.coverage['falsified_resting_on_F1_and_F2_together'] = both
     # how many of the implementation's refutations are PROVED true by C04_bw_refuted_sound_guarded:
     # the repaired model (sw_nodrop) gives the same Refuted answer and the decidable guards hold
     refd = [(cid, line) for cid, line in cs_claims if h_claims.get(cid, '').startswith('refuted')]
